@@ -244,32 +244,37 @@ def run(ctx):
                 if wr["item"] == VMAP and wr["value"] is not None:
                     pass
         for f in w.crate_fns(ENG):
-            if f.derived or "::_::" in f.pretty or f.kind == "Closure":
+            if f.derived or "::_::" in f.pretty:
                 continue
             try:
                 oks = ix.ok_paths(f)
             except Exception:
                 continue
+
+            def is_new(v):
+                # the fraction being appended: a parameter, or a closure's captured parameter
+                return tag(v) == "param" or (tag(v) == "field" and tag(kids(v)[0]) == "param" and f.kind == "Closure" and payload(kids(v)[0])[1] == 0)
+
+            def is_last(v):
+                sh = sym.show(v, 4)
+                return "Index::index" in sh or "::last(" in sh or sh.startswith("last(")
             for p in oks:
-                for e in p.events:
-                    pw = ix.prim_write(e)
-                    if not pw or pw["item"] != VMAP:
-                        continue
                 for e in p.events:
                     if e.name == "std::vec::Vec::push" and any("cumulative_premium_fractions" in sym.show(x, 6) for x in e.raw[:1] + e.args[:1]):
                         seen_push += 1
                         pushed = N(ix, e.args[1])
-                        is_first = any(tag(c[0]) == "op" and payload(c[0])[0] == "len" and c[1] in (False, ("eq", "0")) for c in p.conds)
+                        is_first = any((tag(c[0]) == "op" and payload(c[0])[0] == "len" and c[1] in (False, ("eq", "0"))) or
+                                       (tag(c[0]) == "op" and payload(c[0])[0] == "is_some" and c[1] is False and is_last(kids(c[0])[0])) for c in p.conds)
                         if is_first:
-                            if pushed[0] != "leaf" or tag(pushed[1]) != "param":
+                            if pushed[0] != "leaf" or not is_new(pushed[1]):
                                 cum_bad = cum_bad or "first element pushed is %s" % norm.show(pushed)
                         else:
                             if pushed[0] != "iadd":
                                 cum_bad = cum_bad or "appended element is %s, not new + last" % norm.show(pushed)
                             else:
                                 args = pushed[1:]
-                                has_param = any(x[0] == "leaf" and tag(x[1]) == "param" for x in args)
-                                has_last = any(x[0] == "leaf" and "Index::index" in sym.show(x[1], 3) for x in args)
+                                has_param = any(x[0] == "leaf" and is_new(x[1]) for x in args)
+                                has_last = any(x[0] == "leaf" and is_last(x[1]) for x in args)
                                 if not (has_param and has_last):
                                     cum_bad = cum_bad or "appended element %s is not premium_fraction + last element" % norm.show(pushed)
         ctx.inst("R11.3", "cumulative-sum", cum_bad is None and seen_push >= 2, "", cum_bad or "%d push sites: first = new, otherwise new + last" % seen_push)
